@@ -113,6 +113,7 @@ type mexec struct {
 	diverged                              bool
 	judgeLast                             bool
 	a1used                                bool
+	timeouts                              int
 }
 
 func (e *mexec) add(f, t string) { e.log = append(e.log, entry{f, t}) }
@@ -201,6 +202,11 @@ func (e *mexec) run(level int) mres {
 			e.lastRes, e.lastErr = r.res, r.err
 			if p.has(lisScheduled) {
 				e.ev(level, "retry.scheduled", r.res, r.err)
+			}
+			if p.LongDelay {
+				// the enclosing short Timeout fires while the policy waits out the delay; the retry is never started
+				e.timeoutFires()
+				return e.cancelResult()
 			}
 			e.attempts++
 			e.retries++
@@ -386,6 +392,22 @@ func cacheKeyFor(p polSpec, x execSpec) string {
 
 func isRunEntry(entry int) bool { return entry%4 < 2 }
 
+// timeoutFires models the enclosing short Timeout expiring now: listener, then cancellation of everything inside it.
+func (e *mexec) timeoutFires() {
+	sl := e.shortLevel()
+	if sl < 0 || e.cancelled {
+		return
+	}
+	p := e.m.prog.Pols[sl]
+	if p.has(0) {
+		e.add("events", fmt.Sprintf("L%d:timeout.exceeded %s", sl, odesc(0, timeout.ErrExceeded)))
+		e.add("stats", fmt.Sprintf("L%d:timeout.exceeded %s", sl, e.stats()))
+	}
+	e.timeouts++
+	e.cancelled = true
+	e.cancelLevel = sl
+}
+
 func (e *mexec) fn() mres {
 	k := e.inv
 	e.inv++
@@ -401,15 +423,7 @@ func (e *mexec) fn() mres {
 		st = e.x.Script[k]
 	}
 	if st.Block {
-		if sl := e.shortLevel(); sl >= 0 {
-			p := e.m.prog.Pols[sl]
-			if p.has(0) {
-				e.add("events", fmt.Sprintf("L%d:timeout.exceeded %s", sl, odesc(0, timeout.ErrExceeded)))
-				e.add("stats", fmt.Sprintf("L%d:timeout.exceeded %s", sl, e.stats()))
-			}
-			e.cancelled = true
-			e.cancelLevel = sl
-		}
+		e.timeoutFires()
 	}
 	e.executions++
 	res := st.Res
@@ -420,13 +434,13 @@ func (e *mexec) fn() mres {
 }
 
 // runExec interprets execution xi of the history; returns the log and whether the model diverged (discard).
-func (m *mprog) runExec(xi int) (log []entry, diverged bool, a1used bool) {
+func (m *mprog) runExec(xi int) (log []entry, diverged bool, timeouts int) {
 	x := m.prog.Execs[xi]
 	m.now += x.Advance
 	e := &mexec{m: m, x: x, xi: xi, attempts: 1, rs: map[int]*retryState{}, fuel: 400, judgeLast: judgeLast(m.prog)}
 	r := e.run(0)
 	if e.diverged {
-		return nil, true, false
+		return nil, true, 0
 	}
 	if isRunEntry(x.Entry) {
 		e.add("ret", "(-,"+edesc(r.err)+")") // Run entry points return the error only
@@ -464,7 +478,7 @@ func (m *mprog) runExec(xi int) (log []entry, diverged bool, a1used bool) {
 			e.add("state", fmt.Sprintf("L%d:cache %v", i, m.cache[i]))
 		}
 	}
-	return e.log, false, e.a1used
+	return e.log, false, e.timeouts
 }
 
 // judgeLast: LastResult/LastError seen by attempts is exact unless several retry layers are separated by a policy
